@@ -445,10 +445,11 @@ impl Parser {
     //@  ensures final(self).class_compilers == old(self).class_compilers && final(self).pushed == old(self).pushed && final(self).single_target_mode == old(self).single_target_mode
     //@end
 
-    //@fn file=yarel/src/compiler.rs path=Parser::emit_byte
+    //@fn file=yarel/src/compiler.rs path=Parser::emit_byte props=C04,C06,C17
     //@  requires old(self).pwf()
     //@  ensures final(self).pwf(), old(self).same_but_code(final(self))
     //@  ensures final(self).code() == old(self).code().push(byte)
+    //@  ensures @an_emitted_byte_is_attributed_to_the_line_of_the_token_just_consumed final(self).cur().chunk.lines@ == old(self).cur().chunk.lines@.push(old(self).previous.line as i32)
     //@end
 
     //@fn file=yarel/src/compiler.rs path=Parser::emit_bytes
